@@ -269,6 +269,15 @@ func runC16(c *Collector, r *Rng, thorough bool) {
 			if verr != nil {
 				obs = oErr(verr)
 			}
+			// the digest entry point of the same verifier decides alike
+			if dv, ok := verifier.(cose.DigestVerifier); ok {
+				var derr error
+				if p, v := protect(func() { derr = dv.VerifyDigest(digest, sig) }); p {
+					c.Fail("C16/panic", fmt.Sprint("VerifyDigest panicked: ", v), map[string]any{"curve": ci.name, "sig": hx(sig)})
+				} else if (derr == nil) != oracle {
+					c.Fail("C16/verify-verdict", fmt.Sprintf("VerifyDigest=%v but fixed-width validity=%v", derr, oracle), map[string]any{"curve": ci.name, "sig": hx(sig)})
+				}
+			}
 			// property oracle
 			if (verr == nil) != oracle {
 				c.Fail("C16/verify-verdict", fmt.Sprintf("Verify=%v but fixed-width validity=%v", verr, oracle), map[string]any{"curve": ci.name, "sig": hx(sig)})
@@ -290,6 +299,13 @@ func runC16(c *Collector, r *Rng, thorough bool) {
 			fl := append([]byte{}, sig...)
 			fl[r.Intn(len(fl))] ^= 1 << uint(r.Intn(8))
 			offer("verify/bitflip/"+ci.name, fl, true)
+			for _, k := range []int{1, 2} { // both halves padded alike: r and s are still the same integers, the form is not
+				pad := make([]byte, k)
+				offer("verify/both-halves-padded/"+ci.name, append(append(append(append([]byte{}, pad...), sig[:ci.n]...), pad...), sig[ci.n:]...), true)
+			}
+			if sig[0] == 0 && sig[ci.n] == 0 {
+				offer("verify/both-halves-stripped/"+ci.name, append(append([]byte{}, sig[1:ci.n]...), sig[ci.n+1:]...), true)
+			}
 			if sig[0] == 0 {
 				offer("verify/stripped-r/"+ci.name, sig[1:], true)
 			}
